@@ -1158,6 +1158,21 @@ func (c *FnCtx) useCompositeSpecFunc(sf *SpecFunc, rt types.Type, args []string,
 	for _, f := range c.typeFacts(v) {
 		c.fact(f)
 	}
+	// what an existing value exposes was allocated before the state it is observed in
+	if sc != nil && sc.cur != nil && !sc.pure {
+		var below func(x Val)
+		below = func(x Val) {
+			switch x.K {
+			case KSlice:
+				c.fact(sx("<", x.ref(), sc.cur.alloc))
+			case KStruct, KArray:
+				for _, f := range x.F {
+					below(f)
+				}
+			}
+		}
+		below(v)
+	}
 	if !c.declared["sfc_"+sf.Name] {
 		c.declared["sfc_"+sf.Name] = true
 		c.emitAxiomsFor(sf.Name)
